@@ -550,3 +550,11 @@ func resolveLocal(info *types.Info, body ast.Node, e ast.Expr) ast.Expr {
 	}
 	return unparen(e)
 }
+
+// rawObj: the un-aliased object an identifier expression denotes (nil for other expressions).
+func rawObj(info *types.Info, e ast.Expr) types.Object {
+	if id, ok := unparen(e).(*ast.Ident); ok {
+		return info.ObjectOf(id)
+	}
+	return nil
+}
